@@ -10,8 +10,24 @@ from typing import Any, TypeVar
 
 from hypergraph.nodes._rename import RenameEntry, RenameError, get_next_batch_id
 
+class _EmitSentinel:
+    """Marker auto-produced for emit outputs when a node runs.
+
+    Consumers recognise it by identity, so it must stay the same object when it
+    is copied or round-trips through pickle (e.g. inside a cached node result).
+    """
+
+    __slots__ = ()
+
+    def __reduce__(self) -> str:
+        return "_EMIT_SENTINEL"
+
+    def __repr__(self) -> str:
+        return "<emit>"
+
+
 # Sentinel value auto-produced for emit outputs when a node runs.
-_EMIT_SENTINEL = object()
+_EMIT_SENTINEL = _EmitSentinel()
 
 # TypeVar for self-referential return types (Python 3.10 compatible)
 _T = TypeVar("_T", bound="HyperNode")
